@@ -102,6 +102,23 @@ fn check_c19(c: &HelloCase, info: &mut CaseInfo) -> CheckResult {
     if c.relation == 2 {
         sx.extend(sy.iter().copied()); // X ⊇ Y
     }
+    if c.relation >= 5 {
+        // X holds everything; Y lacks 1-3 of X's heads (and nothing else): with many heads this probes
+        // whether every head takes part in the advertised hello head
+        sx = (0..w.len()).filter(|i| w.honest(*i)).collect();
+        sy = sx.clone();
+        let tips: Vec<usize> = w.frontier(&sx);
+        let mut rng = Prng(u64::from(c.y_subset) ^ 0xFA17);
+        let drops = 1 + rng.below(3);
+        for _ in 0..drops {
+            if tips.len() > 1 {
+                sy.remove(&tips[rng.below(tips.len())]);
+            }
+        }
+        if tips.len() > 10 {
+            info.label("more_than_10_heads");
+        }
+    }
     let mut x = MemReplica::new_mem();
     let mut y = MemReplica::new_mem();
     run_script(&mut x, &w, &sx, &c.x_script, Flags::default())?;
@@ -199,6 +216,44 @@ pub fn run_c19(ctx: &Ctx) -> ! {
          'no sync' decision or a peer that holds more",
         hello_case,
         ctx.pick(3000, 120_000),
+        check_c19,
+    );
+    rep.explore(
+        "hello_many_heads",
+        "worlds dominated by fans (2-40 sibling children of one tip) and combs, so that replicas hold up to dozens of heads; X \
+         holds everything, Y lacks 1-3 of X's heads (or the generic relations); same oracle; non-trivial as above; label \
+         more_than_10_heads counts cases beyond the peer-cache capacity",
+        || {
+            (
+                prop::collection::vec(
+                    prop_oneof![
+                        3 => (any::<u16>(), 8u16..40, strategies::body(0)).prop_map(|(a, n, b)| Step::Fan(a, n, b)),
+                        1 => (any::<u16>(), 2u16..12, strategies::body(0)).prop_map(|(a, n, b)| Step::Comb(a, n, b)),
+                        2 => (any::<u16>(), strategies::body(0)).prop_map(|(a, b)| Step::Extend(a, b)),
+                        1 => (any::<u16>(), any::<u16>(), any::<bool>()).prop_map(|(a, b, c)| Step::Merge(a, b, c)),
+                    ],
+                    1..5,
+                ),
+                any::<u16>(),
+                any::<u16>(),
+                script_strategy(),
+                script_strategy(),
+                prop_oneof![4 => Just(0u8), 1 => Just(1u8), 1 => Just(2u8)],
+                strategies::body(0),
+                prop_oneof![3 => Just(5u8), 1 => 0u8..5],
+            )
+                .prop_map(|(recipe, x_subset, y_subset, x_script, y_script, actions, body, relation)| HelloCase {
+                    recipe,
+                    x_subset,
+                    y_subset,
+                    x_script,
+                    y_script,
+                    actions,
+                    body,
+                    relation,
+                })
+        },
+        ctx.pick(1500, 60_000),
         check_c19,
     );
     rep.finish()
